@@ -197,6 +197,45 @@ pub fn run_compiled(c: &Compiled, dir: &Path, timeout: Duration, run_ts: bool) -
   Runs { wasm, ts }
 }
 
+/// Multi-entry mode (added for C01): writes an arbitrary set of emitted text files plus
+/// `__all__.wasm` into `dir` and runs every launcher `<entry>.wasm.js` (and `<entry>.ts`).
+/// Returns (entry, wasm run, ts run) per entry, in the given order.
+pub fn run_emitted_entries(
+  files: &std::collections::BTreeMap<String, String>,
+  wasm: &[u8],
+  entries: &[String],
+  dir: &Path,
+  timeout: Duration,
+  run_ts: bool,
+) -> Vec<(String, RunResult, RunResult)> {
+  let none = RunResult { lines: vec![], end: "no-node".to_string() };
+  let Some(node) = find_node() else {
+    return entries.iter().map(|e| (e.clone(), none.clone(), none.clone())).collect();
+  };
+  let _ = std::fs::create_dir_all(dir);
+  let w = |name: &str, data: &[u8]| {
+    let mut f = std::fs::File::create(dir.join(name)).unwrap();
+    f.write_all(data).unwrap();
+  };
+  w("__hook__.js", HOOK_JS.as_bytes());
+  w("__all__.wasm", wasm);
+  for (name, text) in files {
+    w(name, text.as_bytes());
+  }
+  let mut out = Vec::new();
+  for e in entries {
+    let wasm_run = run_node(&node, dir, &[&format!("{e}.wasm.js")], timeout);
+    let ts_run = if run_ts {
+      run_node(&node, dir, &["--experimental-strip-types", "--no-warnings", &format!("{e}.ts")], timeout)
+    } else {
+      RunResult { lines: vec![], end: "skipped".to_string() }
+    };
+    out.push((e.clone(), wasm_run, ts_run));
+  }
+  let _ = std::fs::remove_dir_all(dir);
+  out
+}
+
 pub fn scratch_dir(tag: &str, n: usize) -> PathBuf {
   PathBuf::from(format!("/scratch/samverif-{}-{}/{}", tag, std::process::id(), n))
 }
